@@ -95,6 +95,8 @@ class BiLinearForm(_Form):
                 values_e = (values_e_pg * dX_e_pg).integrate()
 
                 # add data ((Ne,) or (Ne, 1) values: the form gives a scalar or a 1-vector at each point)
+                if np.iscomplexobj(values_e) and not np.iscomplexobj(data):
+                    data = data.astype(complex)  # a complex form keeps its imaginary part
                 data[:, i, j] = np.reshape(values_e, -1)
 
         return data
@@ -172,6 +174,8 @@ class LinearForm(_Form):
             values_e = (values_e_pg * dX_e_pg).integrate()
 
             # add data ((Ne,) or (Ne, 1) values: the form gives a scalar or a 1-vector at each point)
+            if np.iscomplexobj(values_e) and not np.iscomplexobj(data):
+                data = data.astype(complex)  # a complex form keeps its imaginary part
             data[:, i, 0] = np.reshape(values_e, -1)
 
         return data
